@@ -107,6 +107,9 @@ def shapes():
         'Fc&Gcd': lambda b: b.pred(1)(b.const()) & b.pred(2)((b.const(), b.const())),
         'c=d': lambda b: P.Identity((b.const(), b.const())),
         '~c=d': lambda b: ~P.Identity((b.const(), b.const())),
+        'Mc=d': lambda b: O.Possibility(P.Identity((b.const(), b.const()))),
+        '*c=d': lambda b: O.Assertion(P.Identity((b.const(), b.const()))),
+        'L~c=d': lambda b: O.Necessity(~P.Identity((b.const(), b.const()))),
         'E!c v A': lambda b: P.Existence(b.const()) | b.atom(),
         '(c=d $ Fc)': lambda b: O.Conditional(P.Identity((b.const(), b.const())), b.pred(1)(b.const())),
         'ExFx': q1,
@@ -219,7 +222,7 @@ def run(ctx):
     N = 4 if ctx.quick else 5
     alpha = parsex.ALPHABETS[('standard', 'reduced')]
     tunits = []
-    for store in ('empty', 'F1,G2'):
+    for store in ('empty', 'F1,G2', 'F3'):
         for n in range(1, N + 1):
             if n >= 3:
                 tunits += [('standard', n, store, (ch,), budget) for ch in alpha]
